@@ -14,7 +14,7 @@ Step(e) ==
     \/ e.op = "deliver" /\ Deliver(e.sw, e.state)
     \/ e.op = "add" /\ AddHandler(e.id, e.sw, e.state, e.ms, e.nested)
     \/ e.op = "remove" /\ RemoveHandler(e.id, e.nested)
-    \/ e.op = "tfire" /\ TFire(e.id) /\ now = e.t
+    \/ e.op = "tfire" /\ TFire(e.id, e.rm) /\ now = e.t
     \/ e.op = "tick" /\ Tick
     \* end of a loop run: nothing overdue, all configured events delivered, queries truthful
     \/ /\ e.op = "sync" /\ ~incall /\ ~Overdue /\ pev = {} /\ UNCHANGED vars
